@@ -2,6 +2,7 @@ package props
 
 import (
 	"fmt"
+	"strings"
 	"testing"
 
 	"github.com/openziti/storage/boltz"
@@ -26,16 +27,22 @@ var c06Cfg = kit.WorldCfg{
 	Links: []kit.LinkCfg{
 		{A: "things", FieldA: "tlinks", B: "targets", FieldB: "plinks"},
 		{A: "things", FieldA: "rct", B: "targets", FieldB: "rcp", RefCounted: true},
-		{A: "kids", FieldA: "klinks", B: "targets", FieldB: "kback"}, // a link collection declared on the child store
+		{A: "kids", FieldA: "klinks", B: "targets", FieldB: "kback"},                // a link collection declared on the child store
+		{A: "owned", FieldA: "orc", B: "targets", FieldB: "orcb", RefCounted: true}, // owned has ref-counted links only
 	},
+}
+
+func c06Long(tag string) string {
+	return "id-" + tag + "-64-" + strings.Repeat("z", 64-len("id-"+tag+"-64-"))
 }
 
 var c06IDs = map[string][]string{
 	// some ids are proper prefixes of others (id-th1 / id-th10): lookups have to match whole ids
-	"things":  {"id-th1", "id-th10", "id-th3"},
-	"kids":    {"id-th1", "id-th10", "id-th3"},
-	"kids0":   {"id-th1", "id-th10", "id-th3"},
-	"targets": {"id-tg1", "id-tg10", "id-tg3"},
+	// ... and one id per store is exactly 64 bytes long
+	"things":  {"id-th1", "id-th10", "id-th3", c06Long("th")},
+	"kids":    {"id-th1", "id-th10", "id-th3", c06Long("th")},
+	"kids0":   {"id-th1", "id-th10", "id-th3", c06Long("th")},
+	"targets": {"id-tg1", "id-tg10", "id-tg3", c06Long("tg")},
 	"deps":    {"id-dp1", "id-dp2", "id-dp3", "id-dp4"},
 	"holders": {"id-ho1", "id-ho2"},
 	"owned":   {"id-ow1", "id-ow2", "id-ow3", "id-ow4"},
@@ -89,6 +96,20 @@ func genC06(t *rapid.T) c06Case {
 			fromThing := rapid.Bool().Draw(t, l+"_side")
 			op := kit.Op{}
 			self, other := c06IDs["things"], c06IDs["targets"]
+			if rapid.IntRange(0, 5).Draw(t, l+"_ownedLink") == 0 && len(m.Ents["owned"]) > 0 {
+				// the ref-counted collection of the store that has no plain collection
+				op := kit.Op{Store: "owned", Field: "orc"}
+				self, other := c06IDs["owned"], c06IDs["targets"]
+				if !fromThing {
+					op.Store, op.Field = "targets", "orcb"
+					self, other = other, self
+				}
+				op.ID = self[rapid.IntRange(0, len(self)-1).Draw(t, l+"_olid")]
+				op.Keys = []string{other[rapid.IntRange(0, len(other)-1).Draw(t, l+"_okey")]}
+				op.Kind = []string{"rcinc", "rcinc", "rcdec", "rcset"}[rapid.IntRange(0, 3).Draw(t, l+"_orck")]
+				op.Count = rapid.IntRange(0, 2).Draw(t, l+"_ocnt")
+				return op
+			}
 			if rapid.IntRange(0, 3).Draw(t, l+"_childLink") == 0 {
 				// the collection that lives on the child store
 				rc = false
